@@ -75,9 +75,10 @@ def check(ctx):
         ok = all("slice::is_empty(P0.%s)" % f in t for f in fields) and "||" not in t and t.count("&&") == len(fields) - 1
         ctx.expect(ok, "C11.5", "is-empty/all-fields", fe["sp"], "is_empty is the conjunction over all %d lists %s" % (len(fields), fields), "is_empty is `%s`" % t)
     Q = "scale_info::Path{segments:Iterator::collect(Iterator::map(Punctuated::iter(P1.segments),|1|{ToString::to_string(C1_0.ident)}))}"
+    Q2 = "scale_info::Path{segments:substitutes::path_segments(P1)}"          # the same list of idents through the helper pinned by C07.8 key/idents-only
     expect_fn(ctx, "C11.6", "similar-paths", "validation::similar_type_paths_in_registry",
-              "if(let v1::Some($)=Path::ident(%s)){Iterator::collect(Iterator::filter_map(P0.types,|1|{if((Path::ident(C1_0.ty.path)?==Path::ident(%s)@v1::Some.0))"
-              "{TryIntoSynPath::syn_path(C1_0.ty.path)}else{v1::None}}))}else{Vec::new()}" % (Q, Q),
+              ["if(let v1::Some($)=Path::ident(%s)){Iterator::collect(Iterator::filter_map(P0.types,|1|{if((Path::ident(C1_0.ty.path)?==Path::ident(%s)@v1::Some.0))"
+               "{TryIntoSynPath::syn_path(C1_0.ty.path)}else{v1::None}}))}else{Vec::new()}" % (x, x) for x in (Q, Q2)],
               "registry paths whose last identifier equals the query's last identifier, in registry order (order-preserving filter_map); empty query -> empty list", S)
     fs = [b for b in q.fn_by_suffix(P, "TryIntoSynPath>::syn_path", S) if "scale_info::Path" in b["path"]]
     if len(fs) == 1:
